@@ -17,7 +17,7 @@ pub struct Mls {
 }
 
 const BASES: &[&str] = &["", "  ", "    ", "      ", "\t", "\t\t", " \t", "\u{3000}", "  \u{b}", "        ", "          "];
-const CONTENTS: &[&str] = &["text", "select *", "it's", "x", "  more indented", "\ttabbed", "a 'quoted' b", "ünï", "trailing  ", "trailing\t", "''", "end;", "// c", "{ c }", "  ", "\t", "   \t "];
+const CONTENTS: &[&str] = &["text", "select *", "it's", "x", "  more indented", "\ttabbed", "a 'quoted' b", "ünï", "trailing  ", "trailing\t", "''", "end;", "// c", "{ c }", "  ", "\t", "   \t ", "\u{a0}", "a\u{a0}b", "\u{2003}\u{2003}", "\u{85}"];
 
 /// append a line ending; a lone CR directly followed by LF would read as one CRLF, so an LF
 /// after a text that ends in CR (empty line after a CR ending) is written as CRLF
@@ -69,7 +69,9 @@ pub fn gen(rng: &mut Rng) -> Mls {
                     cut -= 1;
                 }
                 text.push_str(&base[..cut]);
-                let u = *rng.pick(&["under", "ab", "x", "x1"]);
+                // incl. lines made only of characters that Unicode calls white space but Delphi and C01 do not
+                // (blank = up to U+0020 and U+3000): they are content
+                let u = *rng.pick(&["under", "ab", "x", "x1", "\u{a0}", "\u{a0} ", "\u{2003}", "\u{85}", "\u{2028}", "\u{feff}", "\u{a0}\u{a0}x"]);
                 text.push_str(u);
                 conforming = false;
                 value_lines.push(u.to_string());
